@@ -13,6 +13,12 @@ use std::io::{BufRead, Write};
 fn new_case(ty: &str, n: usize) -> Option<Box<dyn Runner>> {
     Some(match ty {
         "vclock" => Box::new(Machine::<sut::vclock::VC>::new(n)),
+        "gcounter" => Box::new(Machine::<sut::lattice::GC>::new(n)),
+        "pncounter" => Box::new(Machine::<sut::lattice::PN>::new(n)),
+        "gset" => Box::new(Machine::<sut::lattice::GS>::new(n)),
+        "lwwreg" => Box::new(Machine::<sut::lattice::LWW>::new(n)),
+        "maxreg" => Box::new(Machine::<sut::lattice::MaxR>::new(n)),
+        "minreg" => Box::new(Machine::<sut::lattice::MinR>::new(n)),
         _ => return None,
     })
 }
